@@ -96,7 +96,7 @@ func (c *vC06Cfg) setObserver(i int, ch uint64, on bool) {
 // the aspects of the environment that may change between two calls
 var vC06Aspects = []string{"observers-removed", "observers-added", "observer-swapped", "F-raised", "F-lowered",
 	"node-removed", "node-added", "key-rotated", "signer-removed", "signer-added", "signer-address", "signer-node",
-	"F-remote", "interval", "onramp", "lane-dropped", "lane-added", "offramp", "digest", "nothing"}
+	"F-remote", "interval", "onramp", "onramp-length", "lane-dropped", "lane-added", "offramp", "digest", "nothing"}
 
 // vC06Evolve applies one aspect to c in place; reports whether anything changed.
 func vC06Evolve(r *vRand, c *vC06Cfg, aspect string) bool {
@@ -306,6 +306,17 @@ func vC06Evolve(r *vRand, c *vC06Cfg, aspect string) bool {
 			return false
 		}
 		c.reqs[r.Intn(len(c.reqs))].onr += 40
+		return true
+	case "onramp-length": // the same address requested in another form (abi-encoded / bare / truncated / empty)
+		if len(c.reqs) == 0 {
+			return false
+		}
+		q := &c.reqs[r.Intn(len(c.reqs))]
+		n := vPick(r, []int{0, 20, 21, 40, 5, 1, -1, 19})
+		if n == q.olen {
+			return false
+		}
+		q.olen = n
 		return true
 	case "lane-dropped":
 		if len(c.reqs) <= 1 {
